@@ -263,6 +263,10 @@ func extractJSON(page string) (string, error) {
 		return "", fmt.Errorf("stackViewer( call not found in page")
 	}
 	s := page[i+len("stackViewer("):]
+	// a browser ends the script element at the first "</script" (any case), wherever it stands
+	if j := strings.Index(strings.ToLower(s), "</script"); j >= 0 {
+		s = s[:j]
+	}
 	dec := json.NewDecoder(strings.NewReader(s))
 	var raw json.RawMessage
 	if err := dec.Decode(&raw); err != nil {
@@ -274,6 +278,15 @@ func extractJSON(page string) (string, error) {
 func runWeb(c *harness.Ctx) harness.Result {
 	r := c.Rng
 	p := c04.GenReportProfile(r)
+	if r.Intn(4) == 0 && len(p.Function) > 0 {
+		// names a demangler or a template engine can produce: markup inside the name
+		f := p.Function[r.Intn(len(p.Function))]
+		f.Name = []string{"ns::tmpl<a</script><b>x", "op</SCRIPT >", "<!--x", "a<b>c&d\"e'", "</script"}[r.Intn(5)] + f.Name
+		if r.Intn(2) == 0 {
+			f.Filename = "dir/</script>/" + f.Filename
+		}
+		c.Stat("web_profiles_with_markup_in_names", 1)
+	}
 	drv.IsolateEnv(c.Tmp)
 	web, err := drv.StartWeb(&drv.MapFetcher{Profiles: map[string]*profile.Profile{"p": p}}, []string{"p"}, nil, nil, nil)
 	if err != nil {
